@@ -56,3 +56,14 @@ pub fn reserve_stub<T, A: std::alloc::Allocator>(v: &mut Vec<T, A>, additional: 
         v.reserve_exact(ALLOC_BOUND - v.len());
     }
 }
+
+/// `<[u8]>::to_vec` for long inputs whose *content* is irrelevant (name-length limit harness):
+/// returns an empty vector with the length recorded nowhere - only used together with
+/// `from_utf8_trust_stub`.
+pub fn to_vec_len_only_stub<T: Clone>(_s: &[T]) -> Vec<T> {
+    Vec::new()
+}
+/// `String::from_utf8` that trusts its input (ASCII by construction in the harness).
+pub fn from_utf8_trust_stub(_v: Vec<u8>) -> Result<String, std::string::FromUtf8Error> {
+    Ok(String::new())
+}
